@@ -60,7 +60,8 @@ func (r rng) genWord() uint64 {
 
 // genWords returns n little-endian words with a normalized (>= 10^18) top word.
 // style: 0 random mix, 1 all nines, 2 leading 1 then zeros, 3 runs of 0/9,
-// 4 random uniform, 5 near-equal leading words (forces quotient correction).
+// 4 random uniform, 5 near-equal leading words (forces quotient correction),
+// 6 round words, 7 small words at binary/decimal boundaries.
 func (r rng) genWords(n int, style int) []uint64 {
 	if n < 1 {
 		n = 1
@@ -103,6 +104,30 @@ func (r rng) genWords(n int, style int) []uint64 {
 		}
 		if n > 2 {
 			w[n-3] = wordBase - 1
+		}
+	case 6:
+		// round words: sums and carries land exactly on the word base
+		// (6e18 + 4e18, 1 + (10^19-1), 2*5e18), multiplier words 0 and 1
+		alphabet := []uint64{0, 0, 1, 1, 2, wordBase - 1, wordBase - 2, wordBase / 2, wordBase / 10, 3 * (wordBase / 10), 4 * (wordBase / 10),
+			6 * (wordBase / 10), 7 * (wordBase / 10), 9 * (wordBase / 10), wordBase/2 - 1, wordBase/2 + 1}
+		for i := range w {
+			w[i] = alphabet[r.intn(len(alphabet))]
+		}
+	case 7:
+		// small words around the places where the binary and the decimal view of a
+		// word part: sqrt(10^19), 2^32, 2^63, 2^64/10^k - squares and products of
+		// such words fit 64 bits but not one decimal word, or just do
+		marks := []uint64{3162277660, 4294967295, 4294967296, 1 << 31, 1844674407, 18446744073, 9223372036854775807 % wordBase, 9223372036854775808 % wordBase, 1 << 62, 2147483647}
+		for i := range w {
+			switch r.intn(4) {
+			case 0:
+				w[i] = r.Uint64() % wordBase
+			case 1:
+				w[i] = uint64(r.intn(1 << 20))
+			default:
+				m := marks[r.intn(len(marks))]
+				w[i] = (m + uint64(r.intn(5)) - 2) % wordBase
+			}
 		}
 	default:
 		for i := range w {
@@ -194,7 +219,7 @@ func (r rng) genVar(class int, special float64, allowZeroPrec bool) VarSpec {
 	}
 	v.Form = 1
 	n := r.genLen(class)
-	v.Words = r.genWords(n, r.pick(0, 0, 0, 1, 2, 3, 4, 4, 5))
+	v.Words = r.genWords(n, r.pick(0, 0, 0, 1, 2, 3, 4, 4, 5, 6, 7))
 	v.Exp = r.genExp()
 	if allNines(v.Words) && r.chance(0.35) {
 		// all nines at the top of the exponent range: rounding up must give an infinity
